@@ -115,7 +115,7 @@ theorem unzip_mir_type (l r : Elem) (n : Option Int) (c : Option Id) (tl tr : MT
   simp [Val.toMir, Elem.sideType, hl, hr, bind, Except.bind]
 
 /-- `map` keeps the size and takes the element type from the function's return type. -/
-theorem map_type (a f : Reg) (e : Elem) (n : Option Int) (ca fid : Id) (ret : STy) (np : Nat)
+theorem map_type (a f : Reg) (e : Elem) (n : Option Int) (ca fid : Id) (ret : STy) (np : List String)
     (ha : regs[a]? = some (.val (.array e n (some ca)))) (hf : regs[f]? = some (.fn fid ret np)) :
     (exec regs frames (.map a f)).run.run s =
       (.ok ([.val (.array (.cls ret) n (some (s.counter + 1)))], frames),
